@@ -25,13 +25,21 @@ class RecTracer(object):
               "orig_recv": rl.recvRecord, "orig_send": rl.sendRecord}
         tr = self
 
+        def _null(s_):
+            return s_ is None or (s_.encContext is None and s_.macContext is None)
+
         def poll():
+            # a protected state replaced by a null one is the reset done by _shutdown(), not a key change
             if rl._writeState is not st["w"]:
+                was_null = _null(st["w"])
                 st["w"] = rl._writeState
-                tr.emit("KW", d=wdir)
+                if was_null or not _null(rl._writeState):
+                    tr.emit("KW", d=wdir)
             if rl._readState is not st["r"]:
+                was_null = _null(st["r"])
                 st["r"] = rl._readState
-                tr.emit("KR", d=rdir)
+                if was_null or not _null(rl._readState):
+                    tr.emit("KR", d=rdir)
         st["poll"] = poll
 
         orig_send = rl.sendRecord
